@@ -394,10 +394,26 @@ def check_quantity_ctor(rep: Report, prog: Program, rid: str) -> None:
     ps = fi.params()
     me, mag, unit = ps[0], ps[1], ps[2]
     cfg = CFG(fi.node)
-    stores_m = [n for n in ast.walk(fi.node) if isinstance(n, ast.Assign) and any(isinstance(t, ast.Attribute) and t.attr == "magnitude"
-                and isinstance(t.value, ast.Name) and t.value.id == me for t in n.targets)]
-    stores_u = [n for n in ast.walk(fi.node) if isinstance(n, ast.Assign) and any(isinstance(t, ast.Attribute) and t.attr == "unit"
-                and isinstance(t.value, ast.Name) and t.value.id == me for t in n.targets)]
+    class _Store:
+        """`self.<attr> = value` - also as one position of a tuple assignment."""
+        def __init__(self, stmt: ast.Assign, value: ast.AST) -> None:
+            self.stmt, self.value = stmt, value
+
+    def _stores(attr: str) -> List["_Store"]:
+        out_: List[_Store] = []
+        for n in ast.walk(fi.node):
+            if not isinstance(n, ast.Assign):
+                continue
+            for t in n.targets:
+                if isinstance(t, ast.Attribute) and t.attr == attr and isinstance(t.value, ast.Name) and t.value.id == me:
+                    out_.append(_Store(n, n.value))
+                elif isinstance(t, (ast.Tuple, ast.List)) and isinstance(n.value, (ast.Tuple, ast.List)) and len(t.elts) == len(n.value.elts):
+                    for a_, v_ in zip(t.elts, n.value.elts):
+                        if isinstance(a_, ast.Attribute) and a_.attr == attr and isinstance(a_.value, ast.Name) and a_.value.id == me:
+                            out_.append(_Store(n, v_))
+        return out_
+    stores_m = _stores("magnitude")
+    stores_u = _stores("unit")
     if not stores_m or not stores_u:
         raise AnalysisError("Quantity.__init__: stores of self.magnitude / self.unit not found")
 
@@ -414,15 +430,34 @@ def check_quantity_ctor(rep: Report, prog: Program, rid: str) -> None:
                         for t_, v_ in zip(d.targets[0].elts, val.elts):
                             if isinstance(t_, ast.Name) and t_.id == e.id:
                                 val = v_
-                    out += sources(val, cfg.node_of(d), depth + 1) if isinstance(val, ast.Name) else [val]
+                    out += sources(val, cfg.node_of(d), depth + 1) if isinstance(val, (ast.Name, ast.IfExp)) else [val]
                 else:
                     out.append(d)
             return out
+        if isinstance(e, ast.IfExp):
+            return sources(e.body, at, depth) + sources(e.orelse, at, depth)
+        if isinstance(e, ast.Call) and isinstance(e.func, ast.Name) and depth < 4 and not e.keywords:
+            # a one-expression helper of the package: substitute its parameters
+            hq = prog.modules[fi.module].functions.get(e.func.id)
+            h = prog.functions.get(hq) if hq else None
+            if h is not None:
+                body = [x for x in h.node.body if not (isinstance(x, ast.Expr) and isinstance(x.value, ast.Constant))]  # type: ignore[attr-defined]
+                if len(body) == 1 and isinstance(body[0], ast.Return) and body[0].value is not None and len(h.params()) == len(e.args):
+                    import copy as _copy
+                    mapping = dict(zip(h.params(), e.args))
+
+                    class _Sub(ast.NodeTransformer):
+                        def visit_Name(self, n: ast.Name) -> ast.AST:
+                            return _copy.deepcopy(mapping[n.id]) if n.id in mapping else n
+                    inl = _Sub().visit(_copy.deepcopy(body[0].value))
+                    return sources(inl, at, depth + 1)
+        if isinstance(e, ast.Call) and ast.unparse(e.func) in ("cast", "typing.cast") and len(e.args) == 2:
+            return sources(e.args[1], at, depth)
         return [e]
     # quantities the unit is projected from
     projected: Set[str] = set()
     for st in stores_u:
-        for src in sources(st.value, cfg.node_of(st)):
+        for src in sources(st.value, cfg.node_of(st.stmt)):
             txt = ast.unparse(src)
             okp = (isinstance(src, ast.Name) and src.id == unit) or (isinstance(src, ast.Call) and ast.unparse(src.func).endswith("Unit.parse")
                                                                       and len(src.args) == 1 and ast.unparse(src.args[0]) == unit)
@@ -433,19 +468,19 @@ def check_quantity_ctor(rep: Report, prog: Program, rid: str) -> None:
                 projected.add(src.value.id)
                 continue
             rep.fail(rid, f"Quantity.__init__:unit<-{txt[:30]}", f"self.unit is set from `{txt[:50]}`, neither the unit argument nor Unit.parse of it",
-                     fi.where(st))
+                     fi.where(st.stmt))
     for st in stores_m:
-        srcs = sources(st.value, cfg.node_of(st))
+        srcs = sources(st.value, cfg.node_of(st.stmt))
         plain = all(isinstance(x, ast.Name) and x.id == mag for x in srcs)
         folded = {q_ for q_ in projected if any(f"{q_}.magnitude" in ast.unparse(x) and mag in {y.id for y in ast.walk(x) if isinstance(y, ast.Name)} for x in srcs)}
         if projected:
             rep.check(rid, f"Quantity.__init__:magnitude<-{ast.unparse(st.value)[:20]}", projected <= folded,
-                      f"the unit is taken from a parsed quantity ({sorted(projected)}) but `{ast.unparse(st)}` stores a magnitude that does not include "
+                      f"the unit is taken from a parsed quantity ({sorted(projected)}) but `{ast.unparse(st.stmt)}` stores a magnitude that does not include "
                       "that quantity's magnitude on this path: the leading scale of the unit text is dropped (Quantity(7, '1000 m^-2') is 7 m^-2)",
-                      fi.where(st))
+                      fi.where(st.stmt))
         else:
             rep.check(rid, f"Quantity.__init__:magnitude<-{ast.unparse(st.value)[:20]}", plain,
-                      f"`{ast.unparse(st)}` does not store the magnitude argument unchanged", fi.where(st))
+                      f"`{ast.unparse(st.stmt)}` does not store the magnitude argument unchanged", fi.where(st.stmt))
 
 
 def check_numeric_memo(rep: Report, prog: Program, resolver: Resolver, rid: str) -> None:
